@@ -52,6 +52,10 @@ class VWebSocketWSGI:
         c = self.conn
         if c.server_closed or c.peer_closed or c.failed:
             raise OSError('websocket is closed')
+        if getattr(c, 'fail_next_send', 0):
+            c.fail_next_send -= 1       # one write fails, the connection itself survives
+            c.soft_failed_at = c.world.clock.now
+            raise OSError('write failed (scripted, transient)')
         if not isinstance(message, (str, bytes, bytearray)):
             c.contract.append('ws.send of %s' % type(message).__name__)
         c.sent.append((c.world.clock.now, bytes(message) if isinstance(message, bytearray)
@@ -274,6 +278,9 @@ class TWorld:
 
     def ws_fail(self, conn):
         conn.failed = True
+
+    def ws_fail_next_send(self, conn):
+        conn.fail_next_send = getattr(conn, 'fail_next_send', 0) + 1
 
     # -- application API ------------------------------------------------------------------------
     def call(self, name, *args):
